@@ -269,6 +269,12 @@ pub fn collection_docs(rng: &mut Rng, n: usize, fmts: &[Fmt]) -> Vec<Val> {
 		v.push(m(vec![(k, x.clone()), ("b", Val::Int(2)), ("c", Val::Seq(vec![Val::Int(1), s("u: v")]))]));
 		v.push(m(vec![(k, x), ("t", m(vec![("u", m(vec![("w", s("p: q"))]))]))]));
 	}
+	// Arrays whose MessagePack header and first elements read as well-formed
+	// UTF-8 (array 16 with 0x8000–0xBFFF elements: DC 80..BF xx) or as UTF-16
+	// (second byte 0): large counts of small integers.
+	for (n, x) in [(32768usize, 0i128), (40000, 7), (32768 + 127, 1), (49151, 0), (256, 0), (65536 + 128, 0)] {
+		v.push(Val::Seq(std::iter::repeat(Val::Int(x)).take(n).collect()));
+	}
 	for _ in 0..n {
 		v.push(gen_doc(rng, &o));
 	}
